@@ -24,6 +24,7 @@ R10 swapped arguments: at every resolved in-package call no plain-name
 import ast
 
 from ..model import AnalysisError, FuncInfo
+from ..known_names import KNOWN_NAMES
 from ..sym import U, is_const, Run, run_function
 from ..util import (bind_call, strip_await, where, SA, SERVER, CLIENT,
                     MANAGER, walk_own)
@@ -224,17 +225,44 @@ def r7_namespaces(ctx):
                           'it would travel on the default namespace'
                           % (pk['type'], txt(ns)), where=where(f, x))
                 if pk['type'] == 'ACK':
-                    ctx.check(txt(pk.get('id')) == 'id' and
-                              'id' in f.params, '%s.%s' % (cname, f.name),
+                    # the id is a parameter handed in unchanged (never
+                    # reassigned in the function), distinct from the
+                    # namespace
+                    idv = txt(pk.get('id'))
+                    reassigned = any(
+                        isinstance(s, (ast.Assign, ast.AugAssign)) and any(
+                            isinstance(t, ast.Name) and t.id == idv
+                            for t in ast.walk(s.targets[0] if isinstance(
+                                s, ast.Assign) else s.target))
+                        for s in walk_own(f.node))
+                    ctx.check(idv in f.params and idv != U(ns) and
+                              not reassigned, '%s.%s' % (cname, f.name),
                               'ACK carries the incoming id', key='ack-id',
                               where=where(f, x))
                 if cname in ('Server', 'AsyncServer', 'Client',
                              'AsyncClient') and U(ns) == 'namespace':
                     # the namespace value is normalised in the function
-                    norm = any(isinstance(s, ast.Assign) and
-                               U(s.targets[0]) == 'namespace' and
-                               U(s.value) == "namespace or '/'"
-                               for s in walk_own(f.node))
+                    def normalises(g):
+                        return any(isinstance(s, ast.Assign) and
+                                   U(s.targets[0]) == 'namespace' and
+                                   U(s.value) == "namespace or '/'"
+                                   for s in walk_own(g.node))
+                    norm = normalises(f)
+                    if not norm and f.name not in KNOWN_NAMES:
+                        # a helper introduced later: every caller hands it
+                        # its own, normalised, namespace
+                        sites = []
+                        for g in c.methods.values():
+                            for y in walk_own(g.node):
+                                if isinstance(y, ast.Call) and \
+                                        isinstance(y.func, ast.Attribute) \
+                                        and y.func.attr == f.name and \
+                                        U(y.func.value) == 'self':
+                                    b = bind_call(y, f)
+                                    sites.append(
+                                        normalises(g) and
+                                        U(b.get('namespace')) == 'namespace')
+                        norm = bool(sites) and all(sites)
                     if f.name not in ('_handle_event_internal',):
                         ctx.check(norm, '%s.%s' % (cname, f.name),
                                   "namespace normalised with `or '/'`",
